@@ -480,6 +480,8 @@ func rawKeys(dir string) (map[string]string, error) {
 	return out, err
 }
 
+func bigInt(v int64) *big.Int { return big.NewInt(v) }
+
 func gobInt(v int) []byte {
 	var buf bytes.Buffer
 	gob.NewEncoder(&buf).Encode(&v)
@@ -502,6 +504,19 @@ func c13Migration(ev *vlib.Evidence, idx int) {
 			for _, op := range c13GenOps(idx*7+ver, 25) {
 				vlib.ExecStoreOp(s, op, base)
 			}
+			// some databases are large: many keys sort after the nonce table
+			// (vip:peers:*, vip:trial:*), beyond one iterator prefetch batch
+			if idx%2 == 1 {
+				big := 120 + r.Intn(200)
+				for i := 0; i < big; i++ {
+					id := store.NodeID(vlib.NewIdentity("c13bulk", i).NodeID) // realistic 128-hex ids: same key length as the nonce keys
+					s.SetNode(store.Node{ID: id, IsHost: i%2 == 0, LastSeen: base})
+					s.AddNodeBalance(id, bigInt(int64(i+1)))
+					if i%3 == 0 {
+						s.UpdateNodePeers(id, []string{"n1", "n2", vlib.NewIdentity("c13bulk", (i+1)%100).NodeID}, uint64(i))
+					}
+				}
+			}
 			s.Close()
 			// rewrite the version and plant nonce keys with the raw API
 			db, err := badgerdb.Open(vlib.BadgerDiskOptions(dir))
@@ -510,6 +525,9 @@ func c13Migration(ev *vlib.Evidence, idx int) {
 				return
 			}
 			nNonce := 1 + r.Intn(6)
+			if idx%2 == 1 {
+				nNonce = 3 + r.Intn(150)
+			}
 			db.Update(func(txn *badgerdb.Txn) error {
 				if ver == 0 {
 					txn.Delete([]byte("vip:version"))
@@ -641,7 +659,7 @@ func TestC13(t *testing.T) {
 		}
 	}
 	parallelCases(vlib.Scale(8, 100), 4, func(i int) { c13Readers(ev, i) })
-	for i := 0; i < vlib.Scale(3, 40); i++ {
+	for i := 0; i < vlib.Scale(4, 40); i++ {
 		c13Migration(ev, i)
 	}
 	finish(t, ev)
